@@ -42,6 +42,16 @@ def discharge(obs, axioms, timeout_ms=10000, shard=None, use_cvc5=True, cover=Fa
             a['skipped'] += 1; continue
         if a['status'] == 'failed':               # one unproved path already makes the obligation fail; do not pay more time-outs
             a['skipped'] += 1; continue
+        if goal is None:
+            # vacuity guard: the hypotheses of this point must NOT be refutable (unsat = contradictory contract / axioms)
+            from z3 import BoolVal
+            r, be, dt, info, solver = check_one(hyps, BoolVal(False), axioms, min(timeout_ms, 1500))
+            a['secs'] += dt
+            if r == 'unsat':
+                a['status'] = 'failed'; a['detail'] = f'VACUOUS: hypotheses are contradictory at {detail}'
+            else:
+                a['proved'] += 1; a['backends']['z3api-cover'] = a['backends'].get('z3api-cover', 0) + 1
+            continue
         r, be, dt, info, solver = check_one(hyps, goal, axioms, timeout_ms, want_model=True)
         if r == 'unknown' and use_cvc5:
             r2 = cvc5_check(solver, timeout_s=max(5, timeout_ms // 2000))
